@@ -545,7 +545,9 @@ fn decode_hdr(h: &[u8], mix: CMix) -> Hdr {
         }
         _ => None,
     };
-    let plan = if mix == CMix::C07 {
+    // (one case in eight of the C07 mix runs without a fault plan: overflow requests and the panicking twins -
+    //  capacity overflow is reported by unwinding - need an allocator that does not refuse)
+    let plan = if mix == CMix::C07 && b(5) % 8 != 7 {
         match b(5) % 4 {
             0 | 1 => FaultPlan { mask: 0, from: Some(1 + b(6) as u64 % 3), enabled: true },
             _ => FaultPlan { mask: 1u64 << (1 + b(6) % 4), from: None, enabled: true },
